@@ -32,19 +32,58 @@ func zzScreenMatches(vt, ref *zzverif.VT, w int) bool {
 // exactly the buffer, wrapped at the (symbolic) width, with nothing else in the input area,
 // and its cursor is on the cell of the buffer's cursor. Two frames: a first buffer, then a
 // second one (shorter, longer or equal) to expose remnants of earlier content.
-// params: n1, n2 (buffer lengths of the two frames; letters)
+// params: n1, n2 (buffer lengths of the two frames), alpha (letters: a-z; nl: a-z and
+// newline; wide: a-z and the double-width U+4E16)
 func ZZ_C04_Screen() {
 	n1 := zzverif.ParamInt("n1")
 	n2 := zzverif.ParamInt("n2")
+	alpha := zzverif.Param("alpha")
 	w := zzverif.IntRange("cols", 3, 10)
 	zzverif.WinsizeHook = func() (int, int) { return w, 24 }
 	letters := func(prefix string, n int) []rune {
 		rs := zzverif.Runes(prefix, n)
 		for _, r := range rs {
-			zzverif.Assume(r >= 'a' && r <= 'z')
+			switch alpha {
+			case "nl":
+				zzverif.Assume((r >= 'a' && r <= 'z') || r == '\n')
+			case "wide":
+				zzverif.Assume((r >= 'a' && r <= 'z') || r == 0x4e16)
+			default:
+				zzverif.Assume(r >= 'a' && r <= 'z')
+			}
 		}
 		return rs
 	}
+	width := func(r rune) int {
+		if r == 0x4e16 {
+			return 2
+		}
+		return 1
+	}
+	// what the terminal should show for a buffer: the prompt and the first line, then every
+	// further line on a row of its own, aligned under the first (blank indent)
+	// (blank indent; the last line's indent holds the default secondary prompt)
+	layout := func(buf []rune, upto int) string {
+		last := -1
+		for i, r := range buf {
+			if r == '\n' {
+				last = i
+			}
+		}
+		out := prompt0
+		for i, r := range buf[:upto] {
+			switch {
+			case r == '\n' && i == last:
+				out += "\r\n" + zzSecondary
+			case r == '\n':
+				out += "\r\n" + zzSpaces(len(prompt0))
+			default:
+				out += string(r)
+			}
+		}
+		return out
+	}
+	zzverif.VTWidth = width
 	b1 := letters("b", n1)
 	b2 := letters("c", n2)
 	p1 := zzverif.IntRange("p1", 0, n1)
@@ -54,22 +93,106 @@ func ZZ_C04_Screen() {
 	zzverif.WinsizeHook = func() (int, int) { return w, 24 }
 	vt := zzverif.CaptureVT(w)
 	zzverif.TruthfulReports(vt)
-	prompt := "> "
+	prompt := prompt0
 	rl.Prompt.Primary(func() string { return prompt })
 
-	check := func(buf []rune, p int, frame string) {
+	// rows a buffer occupies on the terminal
+	rows := func(buf []rune) int {
+		probe := zzverif.NewVT(w)
+		probe.Write(layout(buf, len(buf)), width)
+		return probe.MaxRow + 1
+	}
+	// shape of a buffer: number of newlines (2+ lumped), whether some line runs over more
+	// than one row, and whether a wide character meets the right margin with one cell left
+	shape := func(buf []rune) string {
+		nl, wide, early, near := 0, 0, false, false
+		probe := zzverif.NewVT(w)
+		probe.Write(prompt0, width)
+		lineLen := 0
+		for i, r := range buf {
+			if r == '\n' {
+				nl++
+				// a line other than the last that ends within 5 cells of the right margin
+				// (DisplayLine counts the 5 bytes of a colour sequence as cells)
+				if len(prompt0)+lineLen+5 >= w {
+					near = true
+				}
+				lineLen = 0
+				probe.Write(layout(buf, i+1)[len(layout(buf, i)):], width)
+				continue
+			}
+			if width(r) == 2 {
+				wide++
+				if !probe.Pending && probe.Col+2 > w {
+					early = true
+				}
+			}
+			lineLen += width(r)
+			probe.Write(string(r), width)
+		}
+		out := "newlines=" + string(rune('0'+nl))
+		if nl >= 2 {
+			out = "newlines=2+"
+		}
+		if probe.MaxRow+1 > nl+1 {
+			out += ",wraps"
+		}
+		if near {
+			out += ",line-ends-near-margin"
+		}
+		if early {
+			out += ",wide-char-wraps-early"
+		} else if wide > 0 {
+			out += ",wide-chars"
+		}
+		return out
+	}
+	check := func(buf, prev []rune, p int, frame string) {
 		zzverif.FinishVT(vt)
 		ref := zzverif.NewVT(w)
-		ref.Write(prompt+string(buf), zzverif.ASCIIWidth)
+		ref.Write(layout(buf, len(buf)), width)
 		sfx := "/" + frame
-		exact := (len(prompt)+len(buf))%w == 0
+		// classes of known findings get labels of their own: a line that ends exactly at
+		// the right margin of the terminal (the terminal is left in deferred-wrap state)
+		exact := false
+		{
+			probe := zzverif.NewVT(w)
+			probe.Write(prompt, width)
+			for i, r := range buf {
+				if r == '\n' {
+					if probe.Pending {
+						exact = true
+					}
+					probe.Write(layout(buf, i+1)[len(layout(buf, i)):], width)
+					continue
+				}
+				probe.Write(string(r), width)
+			}
+			if probe.Pending {
+				exact = true
+			}
+		}
 		if exact {
 			sfx += "/row-exactly-filled"
+		}
+		// multi-line buffers and wide characters: one label per shape of this frame's and
+		// the previous frame's buffer
+		if alpha == "nl" || alpha == "wide" {
+			sfx += "/" + shape(buf)
+			if prev != nil {
+				sfx += "/after/" + shape(prev)
+				switch pr, r := rows(prev), rows(buf); {
+				case pr > r:
+					sfx += "/taller"
+				case pr < r:
+					sfx += "/shorter"
+				}
+			}
 		}
 		zzverif.Note("screen-"+frame, zzDump(vt, w)+" want "+zzDump(ref, w))
 		zzverif.Assert(zzScreenMatches(vt, ref, w), "screen-shows-prompt-and-buffer"+sfx)
 		cur := zzverif.NewVT(w)
-		cur.Write(prompt+string(buf[:p]), zzverif.ASCIIWidth)
+		cur.Write(layout(buf, p), width)
 		wantRow, wantCol := cur.Row, cur.Col
 		if cur.Pending {
 			wantRow, wantCol = cur.Row+1, 0
@@ -85,17 +208,30 @@ func ZZ_C04_Screen() {
 			script.Chunks = [][]byte{{0x00}, {0x00}} // set-mark: a command that changes nothing
 		case 1:
 			zzverif.Reach("frame1")
-			check(b1, p1, "first-frame")
+			check(b1, nil, p1, "first-frame")
 			rl.line.Set(zzCopy(b2)...)
 			rl.cursor.Set(p2)
 		case 2:
 			zzverif.Reach("frame2")
-			check(b2, p2, "second-frame")
+			check(b2, b1, p2, "second-frame")
 			zzverif.Block()
 		}
 		wait++
 	}
 	rl.Readline()
+}
+
+const prompt0 = "> "
+
+// the library's default secondary prompt (internal/ui: secondaryPromptDefault)
+const zzSecondary = "\u2514 "
+
+func zzSpaces(n int) string {
+	s := ""
+	for i := 0; i < n; i++ {
+		s += " "
+	}
+	return s
 }
 
 func zzDump(v *zzverif.VT, w int) string {
